@@ -185,7 +185,11 @@ func (s *Solver) solve(o *Obligation) *SolveResult {
 			if strings.HasPrefix(sp.name, "cvc5") {
 				f = f2
 			}
-			argv := sp.argv(f, s.TimeoutS)
+			tmo := s.TimeoutS
+			if o.Aux && (o.Kind == "post" || o.Kind == "lemma") && tmo > 3 {
+				tmo = 3 // informative clauses never decide a verdict: do not let them slow the check
+			}
+			argv := sp.argv(f, tmo)
 			start := time.Now()
 			cmd := exec.CommandContext(ctx, argv[0], argv[1:]...)
 			var buf bytes.Buffer
